@@ -212,6 +212,15 @@ let run_solve (h : (string, string) Hashtbl.t) : string =
         (match t_span fops segs with
          | None -> Buffer.add_string buf "span none\n"
          | Some (a, b) -> Buffer.add_string buf (Printf.sprintf "span %s %s\n" (hx a) (hx b))));
+     (match s.sol_segs with
+      | None -> ()
+      | Some _ ->
+        let maxdev = ref 0.0 and fails = ref 0 in
+        List.iter2 (fun ti yi ->
+            match sol_eval fops meth (nat_of_int (List.length y0)) s ti with
+            | SolOk v -> List.iter2 (fun a b -> let d = Float.abs (a -. b) in if d > !maxdev || Float.is_nan d then maxdev := d) v yi
+            | _ -> incr fails) s.sol_t s.sol_y;
+        Buffer.add_string buf (Printf.sprintf "selfsol fails=%d maxdev=%s\n" !fails (hx !maxdev)));
      List.iter (fun q ->
          match sol_eval fops meth (nat_of_int (List.length y0)) s q with
          | SolOk v -> Buffer.add_string buf (Printf.sprintf "sol %s ok %s\n" (hx q) (hxlist v))
